@@ -1,23 +1,23 @@
 (* C04 — recomposition reproduces the parsed text.
-   Statements only; proofs in Proofs/ParseRecompose.v, on top of C02 (Proofs/ParseData.v,
-   Proofs/ParseWf.v).  [to_text] is the text uriToString writes (Model/Recompose.v; that the buffer
+   Statements only; proofs in Proofs/ParseRecompose.v and Proofs/ParseAssemble.v, on top of C02
+   (Proofs/ParseData.v, Proofs/ParseWf.v) and the address lemmas (Proofs/Ip4Proofs.v,
+   Proofs/Ip6Proofs.v).  [to_text] is the text uriToString writes (Model/Recompose.v; that the buffer
    version writes exactly this text when it fits is C05).
 
-   PARTIAL.  Proved here for all accepted inputs: what the engine writes is the input with the
-   engine's rendering of the host in place of the host as written (C04_recompose_modulo_host);
-   hence, when the host is not rendered from address bytes -- registered name, IPvFuture literal,
-   no host -- the input itself (C04_recompose_partial, C04_reparse_partial); and for an IPv6 host
-   the input with only the text between the brackets replaced (C04_recompose_ip6_shape).
-   Missing for the full statement [to_text u = canon_ip6 s]: two facts about the address code alone,
-     parse_ip4 h = Some o -> concat (ip4_pieces o 0) = h            (octet printing inverts parse_ip4)
-     concat (ip6_byte_pieces (ip6_bytes h) 0) = groups_text (ip6_value h)   for accepted literals
-   Proofs/ParseRecompose.v derives the IPv4 case (parse_to_text_ip4), the IPv6 case
-   (parse_to_text_ip6_canon) and the full statement (parse_to_text_canon:
-   forall s u, parse s = POk u -> to_text u = canon_ip6 s) from them as explicit hypotheses. *)
+   For every accepted input: the text written is [canon_ip6] of the input (Spec/Recompose.v: the
+   input with the text of an IPv6 literal replaced by the full eight-group lower-case form of its
+   value) -- C04_recompose; the input itself unless the host is an IPv6 literal -- C04_recompose_exact;
+   parsing that text again succeeds and yields the first object, except that the host text of an
+   IPv6 host is the canonical text, which denotes the same address, the sixteen bytes being equal
+   -- C04_reparse, C04_reparse_fields, C04_reparse_same_address, C04_reparse_same; and a second
+   round trip changes nothing any more -- C04_round_trip_fixpoint.
+   "Borrowed and owned URIs": the model object has no ownership-dependent content (texts are
+   values); that uriToString ignores the owner flag is checked on the implementation by gen/c04.py. *)
 From Coq Require Import List NArith Bool String.
 From UP Require Import Base.Chars Model.Uri Model.Ip4 Model.Parse Model.Recompose Spec.Unparse
-  Proofs.ParseSplit Proofs.ParseRecompose.
-From UP Require Proofs.ResolveProofs.
+  Spec.Split Spec.Recompose Proofs.ParseSplit Proofs.ParseRecompose Proofs.ParseAssemble.
+From UP Require Import Base.Regex.
+From UP Require Proofs.ResolveProofs Spec.Rfc3986.
 Import ListNotations.
 Local Open Scope N_scope.
 
@@ -29,15 +29,54 @@ Theorem C04_recompose_modulo_host : forall s u, parse s = POk u ->
 Proof. exact parse_to_text_with. Qed.
 Print Assumptions C04_recompose_modulo_host.
 
-Theorem C04_recompose_partial : forall s u, parse s = POk u -> ip4 u = None -> ip6 u = None -> to_text u = s.
-Proof. exact parse_to_text_no_ip. Qed.
-Print Assumptions C04_recompose_partial.
+(* the statement of the property: the output is the input with an IPv6 literal in canonical form *)
+Theorem C04_recompose : forall s u, parse s = POk u -> to_text u = canon_ip6 s.
+Proof. exact parse_to_text_full. Qed.
+Print Assumptions C04_recompose.
 
-(* consequently parsing the recomposed text gives the same object *)
-Theorem C04_reparse_partial : forall s u, parse s = POk u -> ip4 u = None -> ip6 u = None ->
-  parse (to_text u) = POk u.
-Proof. exact parse_reparse_no_ip. Qed.
-Print Assumptions C04_reparse_partial.
+(* no IPv6 literal (no host, registered name, IPv4 address re-rendered from its bytes, IPvFuture
+   literal): the input, character for character *)
+Theorem C04_recompose_exact : forall s u, parse s = POk u -> ip6 u = None -> to_text u = s.
+Proof. exact parse_to_text_exact. Qed.
+Print Assumptions C04_recompose_exact.
+
+(* parsing the recomposed text succeeds and gives [canon_host u]: [u] with the text of an IPv6 host
+   replaced by the canonical text of its sixteen bytes (Proofs/ParseAssemble.v; spelled out below) *)
+Theorem C04_reparse : forall s u, parse s = POk u -> parse (to_text u) = POk (canon_host u).
+Proof. exact parse_reparse_full. Qed.
+Print Assumptions C04_reparse.
+
+(* every field of the second object is the field of the first, the address bytes included; only the
+   host text of an IPv6 host differs *)
+Theorem C04_reparse_fields : forall u,
+  scheme (canon_host u) = scheme u /\ userInfo (canon_host u) = userInfo u /\ ip4 (canon_host u) = ip4 u
+  /\ ip6 (canon_host u) = ip6 u /\ ipFuture (canon_host u) = ipFuture u /\ portText (canon_host u) = portText u
+  /\ pathSegs (canon_host u) = pathSegs u /\ query (canon_host u) = query u /\ fragment (canon_host u) = fragment u
+  /\ absolutePath (canon_host u) = absolutePath u /\ owner (canon_host u) = owner u
+  /\ hostText (canon_host u) = match ip6 u with Some b => Some (groups_text b) | None => hostText u end.
+Proof. exact canon_host_fields. Qed.
+Print Assumptions C04_reparse_fields.
+
+(* ... and the new host text is an IPv6address text denoting the same address as the old one, which
+   is the address stored *)
+Theorem C04_reparse_same_address : forall s u h b, parse s = POk u -> hostText u = Some h -> ip6 u = Some b ->
+  hostText (canon_host u) = Some (groups_text (ip6_value h))
+  /\ matches Rfc3986.IPv6address (groups_text (ip6_value h))
+  /\ ip6_value (groups_text (ip6_value h)) = ip6_value h /\ b = ip6_value h.
+Proof. exact parse_reparse_same_address. Qed.
+Print Assumptions C04_reparse_same_address.
+
+(* hosts that are not IPv6 literals: parsing the recomposed text gives the very same object *)
+Theorem C04_reparse_same : forall s u, parse s = POk u -> ip6 u = None -> parse (to_text u) = POk u.
+Proof. exact parse_reparse_same. Qed.
+Print Assumptions C04_reparse_same.
+
+(* parsing followed by recomposition loses no information: the object obtained from the recomposed
+   text recomposes to the same text, and re-parsing it changes nothing *)
+Theorem C04_round_trip_fixpoint : forall s u, parse s = POk u ->
+  to_text (canon_host u) = to_text u /\ canon_host (canon_host u) = canon_host u.
+Proof. exact parse_reparse_fixpoint. Qed.
+Print Assumptions C04_round_trip_fixpoint.
 
 (* IPv6 host: the literal is non-empty, does not start with "v", its bytes are those of the text, and
    the output is the input with the text between the brackets replaced by the rendering of the bytes *)
@@ -72,3 +111,43 @@ Example C04_ex_ip6 :
   | PSyntax _ => False
   end.
 Proof. vm_compute. reflexivity. Qed.
+
+(* an IPv4 host (re-rendered from the four bytes), an IPv6 host with "::" and an embedded dotted
+   quad, an IPvFuture host: the output is canon_ip6 of the input, and parses to canon_host *)
+Example C04_ex_full :
+  forallb (fun s => match parse (txt s) with
+                    | POk u => (if list_eq_dec N.eq_dec (to_text u) (canon_ip6 (txt s)) then true else false)
+                               && match parse (to_text u) with
+                                  | POk u' => (if list_eq_dec N.eq_dec (to_text u') (to_text u) then true else false)
+                                              && (if list_eq_dec (list_eq_dec N.eq_dec) (pathSegs u') (pathSegs u) then true else false)
+                                  | PSyntax _ => false
+                                  end
+                    | PSyntax _ => false
+                    end)
+          ["s://u@199.249.250.99:8/p"; "//[1:2::ffff:1.2.3.4]/x"; "//[vF.a:b]:1"; "//[::]"; "//[ABCD:ef01::]?q"] = true.
+Proof. vm_compute. reflexivity. Qed.
+
+Example C04_ex_ip4 :
+  match parse (txt "s://u@199.249.250.99:8/p") with
+  | POk u => ip4 u = Some [199; 249; 250; 99] /\ to_text u = txt "s://u@199.249.250.99:8/p" /\ parse (to_text u) = POk u
+  | PSyntax _ => False
+  end.
+Proof. vm_compute. repeat split; reflexivity. Qed.
+
+Example C04_ex_ip6_mixed :
+  match parse (txt "//[1:2::ffff:1.2.3.4]/x") with
+  | POk u => to_text u = txt "//[0001:0002:0000:0000:0000:ffff:0102:0304]/x"
+             /\ canon_ip6 (txt "//[1:2::ffff:1.2.3.4]/x") = txt "//[0001:0002:0000:0000:0000:ffff:0102:0304]/x"
+             /\ parse (to_text u) = POk (canon_host u)
+             /\ hostText (canon_host u) = Some (txt "0001:0002:0000:0000:0000:ffff:0102:0304")
+             /\ ip6 (canon_host u) = ip6 u
+  | PSyntax _ => False
+  end.
+Proof. vm_compute. repeat split; reflexivity. Qed.
+
+Example C04_ex_ipfuture :
+  match parse (txt "//[vF.a:b]:1") with
+  | POk u => to_text u = txt "//[vF.a:b]:1" /\ parse (to_text u) = POk u
+  | PSyntax _ => False
+  end.
+Proof. vm_compute. split; reflexivity. Qed.
